@@ -28,7 +28,7 @@ SubIds == {"a", "b", "c", "d"}
 Fresh(np) ==
   [order |-> <<>>,
    callk |-> [p \in 1..np |-> 0], taken |-> [p \in 1..np |-> 0], retk |-> [p \in 1..np |-> 0],
-   sst   |-> [s \in SubIds |-> "out"],   \* out | subscribing | in | leaving | gone
+   sst   |-> [s \in SubIds |-> "out"],   \* out | subscribing | in | leaving | gone | void | voidleaving
    lo    |-> [s \in SubIds |-> 0], hi |-> [s \in SubIds |-> 0],
    pos   |-> [s \in SubIds |-> 0],        \* next expected index, 0 = not determined yet
    nclosed |-> [s \in SubIds |-> 0],
@@ -47,9 +47,15 @@ Step(s, e) ==
     [] e.ev = "sub_call" ->
          IF s.sst[e.s] = "out" THEN {[s EXCEPT !.sst[e.s] = "subscribing", !.lo[e.s] = Len(s.order) + 1]} ELSE {}
     [] e.ev = "sub_ret" ->
-         \* (a subscription requested after the tracer has terminated is void)
+         \* (a subscription requested after the tracer has terminated is void; the
+         \* harness learns of the termination -- record "done" -- only some time after
+         \* it happened, so from the moment termination is possible a returning
+         \* subscription may be either)
          IF s.sst[e.s] = "subscribing"
-         THEN {[s EXCEPT !.sst[e.s] = IF s.done THEN "gone" ELSE "in", !.hi[e.s] = Len(s.order) + 1]} ELSE {}
+         THEN LET mayBeOver == s.cancelled /\ \A p \in DOMAIN s.retk : s.retk[p] = s.callk[p] IN
+              (IF s.done THEN {} ELSE {[s EXCEPT !.sst[e.s] = "in", !.hi[e.s] = Len(s.order) + 1]})
+              \cup (IF s.done \/ mayBeOver THEN {[s EXCEPT !.sst[e.s] = "void", !.hi[e.s] = Len(s.order) + 1]} ELSE {})
+         ELSE {}
     [] e.ev = "recv" ->
          IF s.sst[e.s] \notin {"in", "leaving"} THEN {}
          ELSE IF s.pos[e.s] = 0
@@ -59,9 +65,10 @@ Step(s, e) ==
          ELSE IF s.pos[e.s] <= Len(s.order) /\ s.order[s.pos[e.s]] = <<e.p, e.k>>
          THEN {[s EXCEPT !.pos[e.s] = @ + 1]} ELSE {}
     [] e.ev = "unsub_call" ->
-         IF s.sst[e.s] = "in" THEN {[s EXCEPT !.sst[e.s] = "leaving"]} ELSE {}
+         IF s.sst[e.s] = "in" THEN {[s EXCEPT !.sst[e.s] = "leaving"]}
+         ELSE IF s.sst[e.s] = "void" THEN {[s EXCEPT !.sst[e.s] = "voidleaving"]} ELSE {}
     [] e.ev = "unsub_ret" ->
-         IF s.sst[e.s] = "leaving" THEN {[s EXCEPT !.sst[e.s] = "gone"]} ELSE {}
+         IF s.sst[e.s] \in {"leaving", "voidleaving"} THEN {[s EXCEPT !.sst[e.s] = "gone"]} ELSE {}
     [] e.ev = "quiet" ->
          \* everything sent has been taken ...
          IF \E p \in DOMAIN s.retk : s.taken[p] < s.retk[p] THEN {} ELSE
